@@ -78,6 +78,8 @@ TARGETS = [
     ("tucan.io.molfile_v2000_reader", "_merge_atom_attributes_and_additional_attributes"),
     ("tucan.io.molfile_v2000_reader", "_parse_attribute_block"),
     ("tucan.io.molfile_v2000_reader", "graph_attributes_from_molfile_v2000"),
+    ("tucan.io.molfile_reader", "_validate_atom_attributes"),
+    ("tucan.io.molfile_reader", "_validate_bonds"),
     ("tucan.io.molfile_reader", "graph_from_molfile_text"),
     ("tucan.parser.parser", "_to_int"),
     ("tucan.parser.parser", "TucanListenerImpl._validate_atom_index"),
